@@ -7,7 +7,7 @@ C02 — line-protocol driver of the layout model (core only).
   flush | compact <l> | fullcompact | merge | reopen → ok
   read asc|desc <lo> <hi> f,f,…          → rows s:t:v,v|…
 -/
-import OG.C02.Model
+import OG.C02.RecAlg
 
 namespace OG.C02
 
@@ -22,6 +22,20 @@ def parseRow (s : String) : Option Row :=
       | _ => none
     some ⟨sid, t, fields⟩
   | _ => none
+
+def parseARow (s : String) : Option ARow :=
+  match s.splitOn ":" with
+  | [t, vs] => do
+    let t ← t.toInt?
+    some ⟨t, (vs.splitOn ",").map fun v => if v == "_" then none else some v⟩
+  | _ => none
+
+def parseARows (s : String) : Option (List ARow) :=
+  if s.trimAscii.toString == "" then some [] else (s.trimAscii.toString.splitOn ";").mapM parseARow
+
+def showRec (rows : List ARow) : String :=
+  "rec " ++ String.intercalate ";" (rows.map fun r =>
+    toString r.t ++ ":" ++ String.intercalate "," (r.vals.map fun v => v.getD "_"))
 
 def showRows (rs : List (Nat × Int × List (Option String))) : String :=
   "rows " ++ String.intercalate "|" (rs.map fun (s, t, vs) =>
@@ -44,6 +58,18 @@ def step (st : St) (line : String) : St × String :=
   | ["fullcompact"] => (st.compact, "ok")
   | ["merge"] => (st.mergeOOO, "ok")
   | ["reopen"] => (st.reopen, "ok")
+  | ["sortrec", rows] =>
+    match parseARows rows with
+    | some rs => (st, showRec (sortDedup rs))
+    | none => (st, "bad-op")
+  | ["mergerec", a, "|", b] =>
+    match parseARows a, parseARows b with
+    | some x, some y => (st, showRec (mergeRec (x.length + y.length + 1) x y))
+    | _, _ => (st, "bad-op")
+  | ["mergerecdesc", a, "|", b] =>
+    match parseARows a, parseARows b with
+    | some x, some y => (st, showRec (mergeRecDesc (x.length + y.length + 1) x y))
+    | _, _ => (st, "bad-op")
   | ["read", dir, lo, hi, fs] =>
     match lo.toInt?, hi.toInt? with
     | some l, some h => (st, showRows (st.read l h (dir == "asc") (fs.splitOn ",")))
